@@ -466,6 +466,96 @@ def dimension_lattice(ctx):
     return bad, {"dimension_calls": n_calls, "dimension_elements": n_elems, "dimension_distribution": dist}
 
 
+# ------------------------------------------------------------------------------------------------ C03: column dtypes other than float64
+DT_UNARY_VEC = [("scale", [0.5]), ("scale", [-1.25]), ("rotateZ", [0.7]), ("rotateX", [-1.1]), ("rotateY", [0.4]), ("unit", []), ("boostX", [0.6]),
+                ("boostY", [-0.3]), ("boostZ", [0.45]), ("rotate_axis", None), ("rotate_euler", [0.3, 1.2, -0.4]), ("rotate_quaternion", [0.5, 0.5, 0.5, 0.5]),
+                ("transform2D", None), ("neg2D", []), ("neg3D", []), ("neg4D", []), ("to_beta3", []), ("scale2D", [1.5]), ("scale3D", [2.5])]
+DT_BINARY = ["add", "subtract", "cross", "boost_p4", "boost_beta3", "dot", "deltaphi", "deltaR", "deltaangle", "equal", "not_equal"]
+DT_OPS = [("v * 0.5", lambda v: v * 0.5), ("0.25 * v", lambda v: 0.25 * v), ("v / 4", lambda v: v / 4), ("-v", lambda v: -v), ("+v", lambda v: +v),
+          ("abs(v)", abs), ("v ** 2", lambda v: v ** 2)]
+
+
+def dtype_value_lattice(ctx):
+    """every vector-valued method and operator on NumPy / Awkward arrays whose stored columns are int64, int32, float32 or
+    mixed (one int column among float64 ones): element i must equal the object-backend result for the same (integral) coordinates —
+    freshly computed coordinates must not be cast back into the operand's column types.  -> (bad, stats)"""
+    import awkward as ak
+    r = C.rng(ctx.seed, "dtype-value-lattice")
+    bad, n_calls, n_elems, dist = [], 0, 0, {}
+
+    def tol_ok(g, w, f32):
+        def near(x, y):
+            x, y = float(x), float(y)
+            if math.isnan(x) or math.isnan(y):
+                return math.isnan(x) and math.isnan(y)
+            if math.isinf(x) or math.isinf(y):
+                return x == y
+            return abs(x - y) <= (2e-5 if f32 else 1e-12) * max(1.0, abs(y), 10.0)
+        if g is None or w is None or g[0] != w[0]:
+            return False
+        if g[0] == "s":
+            if isinstance(w[1], (bool, numpy.bool_)) or isinstance(g[1], (bool, numpy.bool_)):
+                return bool(g[1]) == bool(w[1])
+            return near(g[1], w[1])
+        return g[1] == w[1] and all(near(x, y) for x, y in zip(g[2], w[2]))
+
+    for dtname in ("int64", "int32", "float32", "mixed"):
+        for tag in ("N.", "A."):
+            for dim in (2, 3, 4):
+                for sig in C.SIGS[dim]:
+                    fl = r.choice("gm")
+                    rows = int_rows(r, sig, 4)
+                    names = C.field_names(fl, sig)
+                    if dtname == "mixed":
+                        j = r.randrange(len(names))
+                        cols = {nm: numpy.array([row[i] for row in rows], dtype=numpy.int64 if i == j else numpy.float64) for i, nm in enumerate(names)}
+                    else:
+                        cols = {nm: numpy.array([row[i] for row in rows], dtype=getattr(numpy, dtname)) for i, nm in enumerate(names)}
+                    arr = vector.array(cols) if tag == "N." else vector.zip(cols)
+                    objs = [C.obj_vec(fl, sig, [float(x) for x in row]) for row in rows]
+                    f32 = dtname == "float32"
+                    sig2 = r.choice(C.SIGS[dim])
+                    rows2 = int_rows(r, sig2, 4)
+                    other = C.obj_vec(r.choice("gm"), sig2, [float(x) + 0.5 for x in rows2[0]])
+                    axis = C.obj_vec("g", ("xy", "z"), [1.0, -2.0, 0.5])
+                    beta = C.obj_vec("g", ("xy", "z"), [0.25, -0.125, 0.5])
+                    thunks = []
+                    for m, a in DT_UNARY_VEC:
+                        if not hasattr(objs[0], m):
+                            continue
+                        if m == "rotate_axis":
+                            a = [axis, 0.9]
+                        if m == "transform2D":
+                            a = [{"xx": 0.5, "xy": 1.5, "yx": -0.25, "yy": 2.0}]
+                        thunks.append((f"{m}{tuple(x for x in a if not hasattr(x, 'azimuthal'))}", (lambda v, m=m, a=a: (getattr(v, m)(*a) if callable(getattr(v, m)) else getattr(v, m)))))
+                    for m in DT_BINARY:
+                        if not hasattr(objs[0], m):
+                            continue
+                        o2 = beta if m == "boost_beta3" else other
+                        if m == "cross" and dim != 3:
+                            continue
+                        thunks.append((f"{m}(object)", (lambda v, m=m, o2=o2: getattr(v, m)(o2))))
+                    thunks += DT_OPS
+                    for label, fn in thunks:
+                        n_calls += 1
+                        key = f"dtype:{tag}{dtname}:{label.split('(')[0]}"
+                        desc = f"{label} on {tag}{fl}:{sig} columns {dtname}"
+                        try:
+                            res = fn(arr)
+                            want = [elem_value(fn(o)) for o in objs]
+                        except Exception as e:  # noqa: BLE001
+                            bad.append((desc, f"raises {type(e).__name__}: {str(e)[:100]}", key))
+                            continue
+                        got = flatten_result(res, len(rows))
+                        for i, (g, w) in enumerate(zip(got, want)):
+                            n_elems += 1
+                            if not tol_ok(g, w, f32):
+                                bad.append((f"{desc} element {i} stored {rows[i]}", f"array {g} object {w}", key))
+                                break
+                        dist[tag + dtname] = dist.get(tag + dtname, 0) + 1
+    return bad, {"dtype_calls": n_calls, "dtype_elements": n_elems, "dtype_distribution": dist}
+
+
 # ------------------------------------------------------------------------------------------------ C05/C11: operators and ufuncs = methods (values)
 def _canon(res, n):
     """per-element canonical values of a result (array of vectors / numbers, or single vector / number)"""
